@@ -7,6 +7,7 @@ import (
 	"fmt"
 	"math/rand"
 	"os"
+	"os/exec"
 	"path/filepath"
 	"sort"
 	"strings"
@@ -364,7 +365,41 @@ func runAsm(o opts) error {
 	w := &hx.Writer{Dir: o.out, Prop: o.prop, Imports: "Bytes Errors Consts Codec CorrBase CodecCorr AsmModel AsmCorr",
 		CaseType: "acase", Mism: "asm_mismatches", Viol: "asm_violations", PerShard: 150}
 
+	// the shipped assembler command (dev/asm, built from /repo by bin/check next to this binary)
+	exe, _ := os.Executable()
+	asmBin := filepath.Join(filepath.Dir(exe), "asmcmd")
+	if _, err := os.Stat(asmBin); err != nil {
+		return fmt.Errorf("dev/asm command not built: %v", err)
+	}
+	nAdded := 0
+	addCmd := func(src []asmLine, text string, kind string) {
+		fp := filepath.Join(o.out, "asm_input.vis")
+		if err := os.WriteFile(fp, []byte(text), 0600); err != nil {
+			panic(err)
+		}
+		cmd := exec.Command(asmBin, fp)
+		var so, se bytes.Buffer
+		cmd.Stdout, cmd.Stderr = &so, &se
+		err := cmd.Run()
+		code := 0
+		if err != nil {
+			if ee, ok := err.(*exec.ExitError); ok {
+				code = ee.ExitCode()
+			} else {
+				panic(err)
+			}
+		}
+		os.Remove(fp)
+		w.Add(hx.Case{Kind: "cmd:" + kind, Trivial: len(src) == 0,
+			Term: fmt.Sprintf("ACmd %s %s %d", asmSrcTerm(src), hx.B(so.Bytes()), code),
+			Key:  "cmd:" + asmSrcTerm(src),
+			Desc: map[string]interface{}{"src": src, "text": text, "stdout": fmt.Sprintf("%x", so.Bytes()), "exit": code}})
+	}
 	add := func(src []asmLine, text string, kind string) {
+		nAdded++
+		if kind == "corpus" || kind == "example" || nAdded%7 == 0 {
+			addCmd(src, text, kind)
+		}
 		written, outcome, how := observeAsm(text)
 		w.Count(how)
 		w.Count(kind + "/" + how)
@@ -403,6 +438,9 @@ func runAsm(o opts) error {
 		{asmLn("UP", "1", "a"), asmLn("HALT"), asmLn("UP", "2", "b")},
 		{asmLn("NOOP")},
 		{},
+		// bytes that mean something to a formatter: 0x25 as a size, inside a size, as a length prefix
+		{asmLn("LOAD", "foo", "37")}, {asmLn("LOAD", "foo", "9472")}, {asmLn("CROAK", "37", "0")},
+		{asmLn("MOVE", strings.Repeat("n", 37)), asmLn("HALT")}, {asmLn("DOWN", strings.Repeat("n", 37), "1", "to_foo")},
 	}
 	for _, src := range corpus {
 		add(src, asmPlainText(src), "corpus")
